@@ -36,7 +36,8 @@ class Bundle:
              "monitor_errors": len(self.ip.monitor_errors)}
         if self.wf is not None:
             c.update({"tensors_checked": self.wf.tensors, "nonzero_charge_tensors": self.wf.nonzero_charge,
-                      "charge_postconditions": self.wf.charge_checks})
+                      "charge_postconditions": self.wf.charge_checks,
+                      "results_unjudged_illformed_inputs": self.wf.unjudged_illformed_inputs})
         if self.im is not None:
             c.update({"snapshotted_calls": self.im.calls, "args_checked": self.im.args_checked,
                       "exempt_inplace_calls": self.im.exempt_calls})
